@@ -153,6 +153,11 @@ def actionAssertions (c : Claim) : List (List Act) := c.store.filterMap CA.acts?
 /-- `hash_assertions()` is non-empty -/
 def hasHash (c : Claim) : Bool := c.store.any CA.isHash
 
+/-- `labels::HASH_LABELS.iter().any(|l| claim.has_assertion_type(l))`: the label of some
+assertion of the store starts with a hard-binding label (created or gathered, any suffix) -/
+def hasBindingLabel (c : Claim) : Bool :=
+  c.store.any fun a => hashLabels.any fun h => h.isPrefixOf a.label
+
 /-- number of ingredient assertions that parse and are `parentOf` -/
 def parentCount (c : Claim) : Nat :=
   ((ingAssertions c).filter fun p =>
@@ -189,7 +194,7 @@ def manifestRules (c : Claim) (ing : Bool) : List Ev :=
   if c.update then
     disallowedActionEvents c ing ++
     (if thumbCount c > 1 then [fail "manifest.update.invalid" ing] else []) ++
-    (if hasHash c then [fail "manifest.update.invalid" ing] else []) ++
+    (if hasBindingLabel c then [fail "manifest.update.invalid" ing] else []) ++
     updateParentEvents (parentCount c) ing
   else if parentCount c > 1 then [fail "manifest.multipleParents" ing] else []
 
@@ -318,6 +323,11 @@ def actionsEvents (c : Claim) (map : List Claim) (ing : Bool) : List (List Act) 
     let es ← actionsEvents c map ing ls
     pure (e ++ es)
 
+/-- `verify_actions` as far as redactions go: for a version-1 claim it returns before rule 2.d
+unless `verify.strict_v1_validation` is set (`Reader`'s default: not set) -/
+def actionsFor (c : Claim) (map : List Claim) (ing : Bool) : P (List Ev) :=
+  if c.version == 1 then some [] else actionsEvents c map ing (actionAssertions c)
+
 /-- result of a validation step: the log (oldest first) and whether it returned `Err` -/
 structure Out where
   log : List Ev
@@ -338,7 +348,7 @@ def verifyClaim (c : Claim) (reds : List Str) (map : List Claim) (ing : Bool) : 
   if !track.isEmpty then
     pure ⟨head ++ loopEv ++ track.map (fun _ => fail "assertion.undeclared" ing), true⟩
   else
-    let av ← actionsEvents c map ing (actionAssertions c)
+    let av ← actionsFor c map ing
     pure ⟨head ++ loopEv ++ av, false⟩
 
 /-! ### `get_claim_referenced_manifests` (redactions, manifest map) -/
@@ -555,6 +565,16 @@ def eraseBox (target : Str) : List (Str × Str) → P (Option (List (Str × Str)
       | some r => pure (some (b :: r))
       | none => pure none
 
+/-- the data-box branch of `Claim::redact_assertion` -/
+def redactDatabox (c : Claim) (uri : Str) : P (Except RErr Claim) := do
+  match ← boxNameFromUri uri with
+  | none => pure (.error .notFound)
+  | some bn =>
+    let target ← toNormalizedUri (toDataboxUri c.label bn)
+    match ← eraseBox target c.databoxes with
+    | some bs => pure (.ok { c with databoxes := bs })
+    | none => pure (.error .notFound)
+
 /-- `Claim::redact_assertion` -/
 def redactAssertion (c : Claim) (uri : Str) : P (Except RErr Claim) := do
   let (l, i) ← assertionLabelFromLink uri
@@ -567,14 +587,7 @@ def redactAssertion (c : Claim) (uri : Str) : P (Except RErr Claim) := do
       match ← erasePos target c.store with
       | some st => pure (.ok { c with store := st })
       | none => pure (.error .notFound)
-    else if containsSub cDataboxes uri then
-      match ← boxNameFromUri uri with
-      | none => pure (.error .notFound)
-      | some bn =>
-        let target ← toNormalizedUri (toDataboxUri c.label bn)
-        match ← eraseBox target c.databoxes with
-        | some bs => pure (.ok { c with databoxes := bs })
-        | none => pure (.error .notFound)
+    else if containsSub cDataboxes uri then redactDatabox c uri
     else pure (.error .notFound)
 
 /-- replace the first claim of the batch whose label occurs in the redaction URI -/
@@ -645,6 +658,104 @@ def differsByRedaction (c1 c2 : Claim) (reds : List Str) : P (Option (List Str))
 
 def sortStrs (l : List String) : List String := l.mergeSort (fun a b => decide (a ≤ b))
 
+/-! ### `ValidationResults::from_store`: which logged statuses reach the results
+
+`from_store` turns every logged item into a `ValidationStatus` and drops those "already
+captured in an ingredient assertion". The ingredient assertions compared against are those of
+*every* claim of the store, i.e. they are written by the signers of the manifests under
+validation (the active one included). The filter as coded (after the repair
+`fixes/C20-from-store-active-claim-status-filter.patch`; before it the first disjunct of
+`keep` was missing and a disallowed redaction or a hard-binding mismatch of an update manifest
+could be suppressed by its own signer):
+
+    if statuses.iter().any(|s| !is_active_manifest(s.url())) {
+        statuses.retain(|s| s.ingredient_uri().is_none()
+            || is_active_manifest(s.url())
+            || !ingredient_statuses.iter().any(|i| i == s))      // == : code, url, kind
+    }
+-/
+
+/-- a `ValidationStatus` made from a log item: code, `url` (the log item's label), kind, and
+whether it carries an ingredient URI (`ing`) -/
+structure St where
+  code : Str
+  url : Option Str
+  kind : Kind
+  ing : Bool
+  deriving DecidableEq, Repr
+
+/-- the logged event a status was made from -/
+def St.toEv (s : St) : Ev := ⟨s.code, s.kind, s.ing⟩
+
+/-- a status listed in an ingredient assertion, as `get_statuses` returns it (kind from
+`log_kind(code)`, url after `make_absolute`) -/
+structure Rec where
+  code : Str
+  url : Option Str
+  kind : Kind
+  deriving DecidableEq, Repr
+
+def cSelfJumbf : Str := "self#jumbf".toList
+
+/-- `ValidationStatus::make_absolute(manifest_label)` on the url -/
+def makeAbsolute (label : Str) : Option Str → P (Option Str)
+  | none => some none
+  | some u =>
+    if cSelfJumbf.isPrefixOf u then do
+      let a ← toAbsoluteUri label u
+      pure (some a)
+    else some (some u)
+
+/-- one ingredient assertion's statuses: the label of its `active_manifest`/`c2pa_manifest`
+(`none` = no such URI or no manifest label in it: urls stay as they are) and the raw list -/
+def recsOf (label : Option Str) (raw : List Rec) : P (List Rec) :=
+  match label with
+  | none => some raw
+  | some l =>
+    raw.foldr (fun r acc => do
+      let u ← makeAbsolute l r.url
+      let rest ← acc
+      pure ({ r with url := u } :: rest)) (some [])
+
+/-- `is_active_manifest(s.url())` -/
+def isActiveUrl (active : Str) : Option Str → P Bool
+  | none => some false
+  | some u => do
+    let m ← manifestLabelFromUri u
+    pure (m == some active)
+
+/-- `ingredient_statuses.iter().any(|i| i == s)` (`PartialEq`: code, url, kind) -/
+def recordedIn (recs : List Rec) (s : St) : Bool :=
+  recs.any fun r => r.code == s.code && r.url == s.url && r.kind == s.kind
+
+/-- the `retain` predicate -/
+def keep (active : Str) (recs : List Rec) (s : St) : P Bool := do
+  let a ← isActiveUrl active s.url
+  pure (!s.ing || a || !recordedIn recs s)
+
+def filterP {α : Type} (p : α → P Bool) : List α → P (List α)
+  | [] => some []
+  | x :: xs => do
+    let b ← p x
+    let rest ← filterP p xs
+    pure (if b then x :: rest else rest)
+
+def anyP {α : Type} (p : α → P Bool) : List α → P Bool
+  | [] => some false
+  | x :: xs => do
+    let b ← p x
+    if b then pure true else anyP p xs
+
+/-- the statuses `from_store` hands to `add_status`, in log order -/
+def notActive (active : Str) (s : St) : P Bool := do
+  let a ← isActiveUrl active s.url
+  pure (!a)
+
+def fromStoreFilter (active : Str) (recs : List Rec) (l : List St) : P (List St) :=
+  match anyP (notActive active) l with
+  | none => none
+  | some gate => if gate then filterP (keep active recs) l else some l
+
 /-! ### line protocol
 
 Strings are plain (labels and URIs contain none of the separators space `|` `;` `,` `~` `^` `+`);
@@ -660,6 +771,9 @@ act    := <name> | <name>^- | <name>^<uri>          (no params | params without 
   addi self=<-|[]|uris> reqs=<-|[]|uris> batch=<claims> -> ok R=<…> <label>:<full labels>… | err:… | panic
   post applied=<…> reqs=<…>                            -> 0|1
   differs c1=<claim> c2=<claim> reds=<uris>            -> none | some <uris sorted by the harness>
+  filter active=<label> recs=<grp>|<grp>… log=<st>,<st>…  -> <n kept> <sorted kept failures code@A|I~url> | panic
+       grp := <manifest label or ->!<code~url~kind>+…      (one ingredient assertion of the store)
+       st  := <code~url or -~kind s|i|f~ing 0|1>            (one logged status of the real validation log)
 -/
 
 def sOut (s : Str) : String := String.ofList s
@@ -747,9 +861,52 @@ def optListOut : Option (List Str) → String
   | some [] => "[]"
   | some l => ",".intercalate (l.map sOut)
 
+def kindIn (s : String) : Kind := if s == "s" then .success else if s == "i" then .info else .failure
+
+def optStrIn (s : String) : Option Str := if s == "-" then none else some s.toList
+
+def stIn (s : String) : Option St :=
+  match s.splitOn "~" with
+  | [c, u, k, i] => some ⟨c.toList, optStrIn u, kindIn k, i == "1"⟩
+  | _ => none
+
+def recIn (s : String) : Option Rec :=
+  match s.splitOn "~" with
+  | [c, u, k] => some ⟨c.toList, optStrIn u, kindIn k⟩
+  | _ => none
+
+/-- `<label or ->!<rec>+<rec>…` -/
+def recGroupIn (s : String) : P (List Rec) :=
+  match s.splitOn "!" with
+  | [l, body] => recsOf (optStrIn l) (if body.isEmpty || body == "-" then [] else (body.splitOn "+").filterMap recIn)
+  | _ => some []
+
+def recGroupsIn (s : String) : P (List Rec) :=
+  if s.isEmpty || s == "-" then some []
+  else (s.splitOn "|").foldr (fun g acc => do
+    let a ← recGroupIn g
+    let rest ← acc
+    pure (a ++ rest)) (some [])
+
+def stOut (s : St) : String :=
+  sOut s.code ++ "@" ++ (if s.ing then "I" else "A") ++ "~" ++ (match s.url with | some u => sOut u | none => "-")
+
+def filterOut (r : P (List St)) : String :=
+  match r with
+  | none => "panic"
+  | some kept =>
+    let fs := sortStrs ((kept.filter fun s => s.kind == .failure).map stOut)
+    toString kept.length ++ " " ++ (if fs.isEmpty then "-" else ",".intercalate fs)
+
 def handle (toks : List String) : String :=
   match toks with
   | "verify" :: rest => outStr (verifyStore (claimsIn (field rest "claims")))
+  | "filter" :: rest =>
+    let logS := field rest "log"
+    let l := if logS.isEmpty || logS == "-" then [] else (logS.splitOn ",").filterMap stIn
+    match recGroupsIn (field rest "recs") with
+    | none => "panic"
+    | some recs => filterOut (fromStoreFilter (field rest "active").toList recs l)
   | "redact" :: rest =>
     match redactAssertion (claimIn (field rest "claim")) (field rest "uri").toList with
     | none => "panic"
